@@ -126,6 +126,16 @@ def uint8_range(arr):
 
 def establish(P, names, quick=True):
     """P: Part/Run-like.  names: kernels to establish."""
+    from . import stream
+    old = stream.ABSTRACT_CAST[0]
+    stream.ABSTRACT_CAST[0] = False
+    try:
+        _establish(P, names, quick)
+    finally:
+        stream.ABSTRACT_CAST[0] = old
+
+
+def _establish(P, names, quick=True):
     from sigpyproc.core import kernels as K
     st = P.stats
     shapes = [(1, 1), (2, 3), (3, 2)] if quick else [(1, 1), (1, 4), (2, 3), (3, 2), (3, 4), (4, 2)]
